@@ -1,9 +1,28 @@
 //! Child-process entry points (cases that may abort the process run here).
 
-pub fn child_main(mode: &str, _args: &[String]) -> i32 {
+pub fn child_main(mode: &str, args: &[String]) -> i32 {
     match mode {
+        #[cfg(feature = "c12")]
+        "c12" => {
+            vcore::drive::install_panic_hook();
+            let tier = if args.first().map(|s| s.as_str()) == Some("thorough") { vcore::Tier::Thorough } else { vcore::Tier::Quick };
+            let mut ctx = vcore::Ctx::new("C12", tier, "exploration");
+            if let Some(i) = args.iter().position(|a| a == "--replay") {
+                if let Some(p) = args.get(i + 1) {
+                    ctx.replay = Some(std::path::PathBuf::from(p));
+                }
+            }
+            // run on a roomy thread; each case spawns its own 2 MiB thread
+            let h = std::thread::Builder::new().stack_size(64 << 20).spawn(move || {
+                crate::c12::run_child(&mut ctx);
+                ctx.finish();
+            });
+            let _ = h.map(|h| h.join());
+            0
+        }
         _ => {
             eprintln!("unknown child mode {}", mode);
+            let _ = args;
             2
         }
     }
